@@ -26,6 +26,7 @@ var c01Families = []family{
 	{`{ me { boss { id } pet { __typename } } strict { boss { id } pet { __typename } } user(id: "7") { boss { id } } }`, nil},
 	{`{ me { echo(s: "x") a: echo(o: "fine") b: echo(o: "bad") c: echo(n: 5) } }`, nil},
 	{`{ nodes { ... on User { best { id } } link { id name age } ... on User { link { best { id } } } ... on Item { link { boss { id } } } } }`, nil},
+	{`query($v1: Boolean!) { me { pet { ... on Pet { __typename } ...PF } } node(id: "2") { ... on Node { id } ...NF @include(if: $v1) } } fragment PF on Pet { ... on User { name } ... on Item { title } } fragment NF on Node { __typename ... on Pet { ... on User { age } } }`, []string{"v1"}},
 	{`query($v1: Boolean!) { me { best { id } boss { id age } friends { id best @include(if: $v1) { id } } pet { __typename } items { title owner { id } } } }`, []string{"v1"}},
 }
 
